@@ -159,11 +159,14 @@ theorem holds_readLen (hB : 15 ≤ B) : Holds B readLen (fun p => 1 ≤ p.2 ∧ 
   apply holds_ite
   · intro _; exact holds_pure _ (by simp)
   · intro _
-    have hk := mask_le b
-    have hk' : b.toNat &&& lengthCountMask.toNat ≤ 15 := Nat.and_le_right
-    apply holds_bind (holds_readN _ (by omega) (by omega))
-    intro bs _
-    exact holds_pure _ (by simp; omega)
+    apply holds_ite
+    · intro _; exact holds_fail _ (by decide)
+    · intro _
+      have hk := mask_le b
+      have hk' : b.toNat &&& lengthCountMask.toNat ≤ 15 := Nat.and_le_right
+      apply holds_bind (holds_readN _ (by omega) (by omega))
+      intro bs _
+      exact holds_pure _ (by simp; omega)
 
 theorem holds_peekLen (off : Nat) (hB : 15 ≤ B) : Holds B (peekLen off) (fun p => 1 ≤ p.2 ∧ p.2 ≤ 16) := by
   unfold Crv.peekLen
@@ -172,11 +175,14 @@ theorem holds_peekLen (off : Nat) (hB : 15 ≤ B) : Holds B (peekLen off) (fun p
   apply holds_ite
   · intro _; exact holds_pure _ (by simp)
   · intro _
-    have hk := mask_le b
-    have hk' : b.toNat &&& lengthCountMask.toNat ≤ 15 := Nat.and_le_right
-    apply holds_bind (holds_peekN _ _ (by omega))
-    intro bs _
-    exact holds_pure _ (by simp; omega)
+    apply holds_ite
+    · intro _; exact holds_fail _ (by decide)
+    · intro _
+      have hk := mask_le b
+      have hk' : b.toNat &&& lengthCountMask.toNat ≤ 15 := Nat.and_le_right
+      apply holds_bind (holds_peekN _ _ (by omega))
+      intro bs _
+      exact holds_pure _ (by simp; omega)
 
 def TLOK (tl : TL) : Prop := 1 ≤ tl.lenSize ∧ tl.lenSize ≤ 16
 
@@ -295,9 +301,11 @@ theorem shrinks_peekLen (off : Nat) : Shrinks (peekLen off) 0 := by
   intro b
   apply shrinks_ite
   · exact shrinks_pure _
-  · apply shrinks_bind0 (shrinks_peekN _ _)
-    intro bs
-    exact shrinks_pure _
+  · apply shrinks_ite
+    · exact shrinks_fail _ _
+    · apply shrinks_bind0 (shrinks_peekN _ _)
+      intro bs
+      exact shrinks_pure _
 
 theorem shrinks_peekTL (off : Nat) : Shrinks (peekTL off) 0 := by
   unfold Crv.peekTL
@@ -420,7 +428,10 @@ theorem holds_readUtcTime (O : Oracle) : Holds allocBound (readUtcTime O) (fun _
   · intro _; exact holds_pure _ trivial
   · intro _; exact holds_fail _ (by decide)
 
-theorem holds_parseBitString : Holds allocBound parseBitString (fun _ => True) := by
+/-- What `parseBitString` guarantees about its result: at most 7 unused bits, none for an empty string. -/
+def BitStrOK (s : BitStr) : Prop := s.bitLen % 8 = 0 → s.bitLen = 8 * s.bytes.length
+
+theorem holds_parseBitString_post : Holds allocBound parseBitString BitStrOK := by
   unfold Crv.parseBitString
   apply holds_bind (holds_readTL (by decide))
   intro tl _
@@ -435,7 +446,24 @@ theorem holds_parseBitString : Holds allocBound parseBitString (fun _ => True) :
     simp only
     apply holds_ite
     · intro _; exact holds_fail _ (by decide)
-    · intro _; exact holds_pure _ trivial
+    · intro hc
+      apply holds_pure
+      intro h8
+      simp only [not_or, Nat.not_lt, not_and] at hc
+      obtain ⟨h7, he, _⟩ := hc
+      show body.length * 8 - p.toNat = 8 * body.length
+      have h8' : (body.length * 8 - p.toNat) % 8 = 0 := h8
+      cases body with
+      | nil =>
+        have := he rfl
+        simp only [List.length_nil]
+        omega
+      | cons x xs =>
+        simp only [List.length_cons] at h8' ⊢
+        omega
+
+theorem holds_parseBitString : Holds allocBound parseBitString (fun _ => True) :=
+  holds_weaken holds_parseBitString_post (fun _ _ => trivial)
 
 theorem holds_readBigInt : Holds allocBound readBigInt (fun _ => True) := by
   unfold Crv.readBigInt
@@ -561,6 +589,37 @@ theorem holds_prescan (O : Oracle) : Holds allocBound (prescan O) (fun _ => True
   | none => exact holds_fail _ (by decide)
   | some oid => exact holds_pure _ trivial
 
+theorem holds_readInnerAlg (O : Oracle) (outerFrame : Bytes) :
+    Holds allocBound (readInnerAlg O outerFrame) (fun _ => True) := by
+  unfold Crv.readInnerAlg
+  apply holds_ite
+  · intro _
+    apply holds_bind (holds_readStruct _ _)
+    intro f _
+    apply holds_ite
+    · intro _; exact holds_pure _ trivial
+    · intro _; exact holds_fail _ (by decide)
+  · intro _; exact holds_ignoreErr holds_readStructFrame
+
+/-- The envelope check lets only whole-octet signatures through (`sigUnusedBitsRejected`). -/
+theorem holds_checkEnvelope (sig : BitStr) (outerEnd : Nat) :
+    Holds B (checkEnvelope sig outerEnd) (fun _ => sig.bitLen % 8 = 0) := by
+  unfold Crv.checkEnvelope
+  apply holds_ite
+  · intro _; exact holds_fail _ (by decide)
+  · intro hc
+    have h8 : sig.bitLen % 8 = 0 := by
+      simp only [sigUnusedBitsRejected, Bool.true_and, bne_iff_ne, ne_eq, Decidable.not_not] at hc
+      exact hc
+    apply holds_ite
+    · intro _
+      apply holds_bind holds_getPos
+      intro p _
+      apply holds_ite
+      · intro _; exact holds_pure _ h8
+      · intro _; exact holds_fail _ (by decide)
+    · intro _; exact holds_pure _ h8
+
 theorem holds_lookupHashM (oid : List Nat) : Holds B (lookupHashM oid) (fun _ => True) := by
   unfold Crv.lookupHashM
   cases lookupHash oid with
@@ -651,36 +710,91 @@ theorem holds_checkGate (e : Option (List Ext)) : Holds B (checkGate e) (fun _ =
     · intro _; exact holds_pure _ trivial
     · intro _; exact holds_fail _ (by decide)
 
-theorem holds_readBody (O : Oracle) (oid : List Nat) : Holds allocBound (readBody O oid) (fun _ => True) := by
+/-- What every successful second pass guarantees about its result, for every input: the critical-extension gate
+was passed and the signature BIT STRING has no unused bits. -/
+def BodyPost (res : ReadResult) : Prop :=
+  (∀ es, res.exts = some es → criticalGate es = true) ∧ res.sig.bitLen % 8 = 0 ∧ res.sig.bitLen = 8 * res.sig.bytes.length
+
+theorem holds_checkGate_post (e : Option (List Ext)) :
+    Holds B (checkGate e) (fun _ => ∀ es, e = some es → criticalGate es = true) := by
+  cases e with
+  | none => exact holds_pure _ (by intro es h; cases h)
+  | some es =>
+    unfold Crv.checkGate
+    apply holds_ite
+    · intro hg; exact holds_pure _ (by intro es' h; cases h; exact hg)
+    · intro _; exact holds_fail _ (by decide)
+
+/-- The part of `readBody` after the outer header (the continuation of the `outerEnd` computation). -/
+theorem holds_readBody_post (O : Oracle) (oid : List Nat) (outerFrame : Bytes) :
+    Holds allocBound (readBody O oid outerFrame) BodyPost := by
   unfold Crv.readBody
   apply holds_bind (holds_readTL (by decide)); intro outer _
   apply holds_bind (holds_expectTag _ _); intro _ _
-  apply holds_bind (holds_lookupHashM _); intro hashAlg _
-  apply holds_bind (holds_setHashing _); intro _ _
-  apply holds_bind (holds_readTL (by decide)); intro tbs _
-  apply holds_bind (holds_expectTag _ _); intro _ _
-  apply holds_bind (holds_endPosition _); intro tbsEnd _
-  apply holds_bind holds_readVersion; intro version _
-  apply holds_ite
-  · intro _; exact holds_fail _ (by decide)
-  · intro _
-    apply holds_bind (holds_ignoreErr holds_readStructFrame); intro _ _
-    apply holds_bind (holds_readStruct _ _); intro issuer _
-    apply holds_bind (holds_readUtcTime O); intro thisUpdate _
-    apply holds_bind (holds_readNextUpdate O); intro nextUpdate _
-    apply holds_bind (holds_emit _); intro _ _
-    apply holds_bind (holds_readEntryList O tbsEnd); intro _ _
-    apply holds_bind (holds_readExtensions O tbsEnd version); intro p _
-    obtain ⟨exts, crlNumber⟩ := p
-    simp only
-    apply holds_bind (holds_emit _); intro _ _
-    apply holds_bind (holds_checkGate _); intro _ _
-    apply holds_bind holds_getHashed; intro region _
-    apply holds_bind holds_getHashFrom; intro hashFrom _
+  have tail : ∀ outerEnd : Nat, Holds allocBound (do
+      let hashAlg ← lookupHashM oid
+      setHashing true
+      let tbs ← readTL
+      expectTag 0x30 tbs.tag
+      let tbsEnd ← endPosition tbs.len
+      let version ← readVersion
+      if version > maxVersion then fail .version
+      readInnerAlg O outerFrame
+      let issuer ← readStruct .rdn O.rdnOk
+      let thisUpdate ← readUtcTime O
+      let nextUpdate ← readNextUpdate O
+      emit (.start issuer thisUpdate nextUpdate)
+      readEntryList O tbsEnd
+      let (exts, crlNumber) ← readExtensions O tbsEnd version
+      emit (.extMeta crlNumber)
+      checkGate exts
+      let region ← getHashed
+      let hashFrom ← getHashFrom
+      setHashing false
+      ignoreErr readStructFrame
+      let sig ← parseBitString
+      checkEnvelope sig outerEnd
+      pure ({ algOid := oid, hashAlg := hashAlg, issuer := issuer, exts := exts, sig := sig, hashRegion := region,
+              hashFrom := hashFrom } : ReadResult)) BodyPost := by
+    intro outerEnd
+    apply holds_bind (holds_lookupHashM _); intro hashAlg _
     apply holds_bind (holds_setHashing _); intro _ _
-    apply holds_bind (holds_ignoreErr holds_readStructFrame); intro _ _
-    apply holds_bind holds_parseBitString; intro sig _
-    exact holds_pure _ trivial
+    apply holds_bind (holds_readTL (by decide)); intro tbs _
+    apply holds_bind (holds_expectTag _ _); intro _ _
+    apply holds_bind (holds_endPosition _); intro tbsEnd _
+    apply holds_bind holds_readVersion; intro version _
+    apply holds_ite
+    · intro _; exact holds_fail _ (by decide)
+    · intro _
+      apply holds_bind (holds_readInnerAlg O outerFrame); intro _ _
+      apply holds_bind (holds_readStruct _ _); intro issuer _
+      apply holds_bind (holds_readUtcTime O); intro thisUpdate _
+      apply holds_bind (holds_readNextUpdate O); intro nextUpdate _
+      apply holds_bind (holds_emit _); intro _ _
+      apply holds_bind (holds_readEntryList O tbsEnd); intro _ _
+      apply holds_bind (holds_readExtensions O tbsEnd version); intro p _
+      obtain ⟨exts, crlNumber⟩ := p
+      simp only
+      apply holds_bind (holds_emit _); intro _ _
+      apply holds_bind (holds_checkGate_post exts); intro _ hgate
+      apply holds_bind holds_getHashed; intro region _
+      apply holds_bind holds_getHashFrom; intro hashFrom _
+      apply holds_bind (holds_setHashing _); intro _ _
+      apply holds_bind (holds_ignoreErr holds_readStructFrame); intro _ _
+      apply holds_bind holds_parseBitString_post; intro sig hsig
+      apply holds_bind (holds_checkEnvelope sig outerEnd); intro _ h8
+      exact holds_pure _ ⟨hgate, h8, hsig h8⟩
+  apply holds_ite
+  · intro _
+    apply holds_bind (holds_endPosition _); intro outerEnd _
+    exact tail outerEnd
+  · intro _
+    apply holds_bind (holds_pure (P := fun _ => True) _ trivial); intro outerEnd _
+    exact tail outerEnd
+
+theorem holds_readBody (O : Oracle) (oid : List Nat) (outerFrame : Bytes) :
+    Holds allocBound (readBody O oid outerFrame) (fun _ => True) :=
+  holds_weaken (holds_readBody_post O oid outerFrame) (fun _ _ => trivial)
 
 theorem allocOK_init (file : Bytes) : AllocOK allocBound ({ rest := file } : Rd) := by
   intro a ha; cases ha
@@ -697,10 +811,11 @@ theorem readCRL_safe (O : Oracle) (file : Bytes) :
     simp only [hp] at h1 ⊢
     exact ⟨h1.1, h1.2⟩
   | panic r => simp only [hp] at h1
-  | ok oid r1 =>
+  | ok p r1 =>
+    obtain ⟨oid, frame⟩ := p
     simp only [hp] at h1 ⊢
-    have h2 := holds_readBody O oid { rest := file } (allocOK_init file)
-    cases hb : readBody O oid { rest := file } with
+    have h2 := holds_readBody O oid frame { rest := file } (allocOK_init file)
+    cases hb : readBody O oid frame { rest := file } with
     | ok res r2 =>
       simp only [hb] at h2 ⊢
       refine ⟨?_, trivial⟩
@@ -726,46 +841,8 @@ open Crv.Generated
 
 /-! ### The critical-extension gate holds for every successful read (all inputs) -/
 
-theorem holds_checkGate_post (e : Option (List Ext)) :
-    Holds B (checkGate e) (fun _ => ∀ es, e = some es → criticalGate es = true) := by
-  cases e with
-  | none => exact holds_pure _ (by intro es h; cases h)
-  | some es =>
-    unfold Crv.checkGate
-    apply holds_ite
-    · intro hg; exact holds_pure _ (by intro es' h; cases h; exact hg)
-    · intro _; exact holds_fail _ (by decide)
-
-theorem holds_readBody_gate (O : Oracle) (oid : List Nat) :
-    Holds allocBound (readBody O oid) (fun res => ∀ es, res.exts = some es → criticalGate es = true) := by
-  unfold Crv.readBody
-  apply holds_bind (holds_readTL (by decide)); intro outer _
-  apply holds_bind (holds_expectTag _ _); intro _ _
-  apply holds_bind (holds_lookupHashM _); intro hashAlg _
-  apply holds_bind (holds_setHashing _); intro _ _
-  apply holds_bind (holds_readTL (by decide)); intro tbs _
-  apply holds_bind (holds_expectTag _ _); intro _ _
-  apply holds_bind (holds_endPosition _); intro tbsEnd _
-  apply holds_bind holds_readVersion; intro version _
-  apply holds_ite
-  · intro _; exact holds_fail _ (by decide)
-  · intro _
-    apply holds_bind (holds_ignoreErr holds_readStructFrame); intro _ _
-    apply holds_bind (holds_readStruct _ _); intro issuer _
-    apply holds_bind (holds_readUtcTime O); intro thisUpdate _
-    apply holds_bind (holds_readNextUpdate O); intro nextUpdate _
-    apply holds_bind (holds_emit _); intro _ _
-    apply holds_bind (holds_readEntryList O tbsEnd); intro _ _
-    apply holds_bind (holds_readExtensions O tbsEnd version); intro p _
-    obtain ⟨exts, crlNumber⟩ := p
-    simp only
-    apply holds_bind (holds_emit _); intro _ _
-    apply holds_bind (holds_checkGate_post exts); intro _ hgate
-    apply holds_bind holds_getHashed; intro region _
-    apply holds_bind holds_getHashFrom; intro hashFrom _
-    apply holds_bind (holds_setHashing _); intro _ _
-    apply holds_bind (holds_ignoreErr holds_readStructFrame); intro _ _
-    apply holds_bind holds_parseBitString; intro sig _
-    exact holds_pure _ hgate
+theorem holds_readBody_gate (O : Oracle) (oid : List Nat) (outerFrame : Bytes) :
+    Holds allocBound (readBody O oid outerFrame) (fun res => ∀ es, res.exts = some es → criticalGate es = true) :=
+  holds_weaken (holds_readBody_post O oid outerFrame) (fun _ h => h.1)
 
 end Crv
